@@ -40,7 +40,8 @@ PROP = {
                   "clock advances: the runtime stops by the vote only when no task is busy, all three votes are "
                   "outstanding and a full timeout has passed since each task's last activity; a task that becomes busy "
                   "blocks the stop until the agent reads; once every flag is set the run has ended; a task told "
-                  "Unanimous has set the last flag. Tied to the real AgentRouteTask::run_agent (paused clock, stop "
+                  "Unanimous has set the last flag; with nobody busy and nothing happening for a full timeout the "
+                  "runtime stops (liveness). Tied to the real AgentRouteTask::run_agent (paused clock, stop "
                   "time and DisconnectionReason compared) and, for the two-party case, to the real "
                   "ValueDownlinkRuntime; the real coordinator is also stressed with one OS thread per voter "
                   "(monitor).",
@@ -49,8 +50,7 @@ PROP = {
                   "implementation is exercised single-threaded by the differential engines (the interleavings are "
                   "covered by the theorem) and multi-threaded by coord-threads (monitor only). 'Stops only by the "
                   "unanimous vote' is false of the agent runtime (C17-N1: no remotes => the write task stops it alone); "
-                  "the liveness statement of the runtime model is open (C17_rt_quiet_stops_open) and the downlink "
-                  "runtime model has safety theorems only (its timers are not in the theorems).",
+                  "the downlink runtime model has safety theorems only (its timers are not in the theorems).",
     "trusted_base": COMMON_TRUST + [
         "modelled, not verified: AtomicU8 (single-location total order), futures::task::AtomicWaker",
         "tokio's paused clock (timers fire in deadline order at their exact instants); the harness's bookkeeping of "
